@@ -626,6 +626,10 @@ func bFor(intp *Interpreter) error {
 		} else if err != nil {
 			return err
 		}
+		if increment > 0 && val > math.MaxInt-increment || increment < 0 && val < math.MinInt-increment {
+			// the next value is beyond the integer range, and thus beyond the limit
+			break
+		}
 		val += increment
 	}
 	return nil
